@@ -80,6 +80,19 @@ func genData(g *yg.G, depth int, idx *int) *A {
 	switch k := g.Pick(4, "datakind"); {
 	case k == 0 || depth == 0:
 		leaf := &A{Kw: "leaf", Val: sp(name), Kids: []*A{{Kw: "type", Val: sp("string")}}}
+		// arguments the parser takes apart (ranges, lengths, patterns, expressions): the tree still shows them as written
+		switch g.Pick(6, "typedarg") {
+		case 0:
+			rs := []string{"1..5", "1 .. 5", "1..5|7..9", "1 .. 5 | 7 .. max", " 1..5 ", "min..max", "1\t..\t5", "3"}
+			leaf.Kids[0] = &A{Kw: "type", Val: sp("int32"), Kids: []*A{{Kw: "range", Val: sp(rs[g.Pick(len(rs), "rangearg")])}}}
+		case 1:
+			ls := []string{"1..4", " 1 .. 4 ", "0..2|5", "0 .. 2 | 5 .. max", "min..8"}
+			ps := []string{"[a-z]+", "a b", "\\d+", " x ", "a|b", "[ \t]*"}
+			leaf.Kids[0] = &A{Kw: "type", Val: sp("string"), Kids: []*A{{Kw: "length", Val: sp(ls[g.Pick(len(ls), "lengtharg")])}, {Kw: "pattern", Val: sp(ps[g.Pick(len(ps), "patternarg")])}}}
+		case 2:
+			es := []string{"../k = 'a'", "../k  =  'a'", " ../k='a' ", "count(../x)>1", "../a  and  ../b", "../k = 'a  b'"}
+			leaf.Kids = append(leaf.Kids, &A{Kw: []string{"must", "when"}[g.Pick(2, "mustwhen")], Val: sp(es[g.Pick(len(es), "exprarg")])})
+		}
 		if g.Pick(2, "desc") == 0 {
 			leaf.Kids = append(leaf.Kids, mkstr("description"))
 		}
@@ -103,6 +116,18 @@ func genData(g *yg.G, depth int, idx *int) *A {
 	case k == 2:
 		key := &A{Kw: "leaf", Val: sp("k"), Kids: []*A{{Kw: "type", Val: sp("string")}}}
 		l := &A{Kw: "list", Val: sp(name), Kids: []*A{{Kw: "key", Val: sp("k")}, key}}
+		if g.Pick(2, "twokeys") == 0 {
+			// several keys, separated and surrounded by blanks and tabs (no line breaks: multi-line double-quoted strings
+		// are C08's subject): the argument is reported as written
+			ks := []string{"k k2", "k  k2", "k\tk2", " k k2", "k k2 ", "k \t k2", "k2 k"}
+			l.Kids[0].Val = sp(ks[g.Pick(len(ks), "keyarg")])
+			l.Kids = append(l.Kids, &A{Kw: "leaf", Val: sp("k2"), Kids: []*A{{Kw: "type", Val: sp("string")}}})
+			if g.Pick(2, "uniq") == 0 {
+				us := []string{"u1 u2", "u1  u2", " u1\tu2 ", "u1"}
+				l.Kids = append(l.Kids, &A{Kw: "unique", Val: sp(us[g.Pick(len(us), "uniquearg")])},
+					&A{Kw: "leaf", Val: sp("u1"), Kids: []*A{{Kw: "type", Val: sp("string")}}}, &A{Kw: "leaf", Val: sp("u2"), Kids: []*A{{Kw: "type", Val: sp("string")}}})
+			}
+		}
 		if g.Pick(2, "lextra") == 0 {
 			l.Kids = append(l.Kids, genData(g, depth-1, idx))
 		}
